@@ -598,10 +598,22 @@ impl<E: Effect, R: CommandReceiver<E>, S: EventSender<E>> Worker<E, R, S> {
                     .map_err(|e| EnvironmentError::HeapData(format!("{:?}", e)))?;
             }
             Err(error) => {
-                // Set the process result to the error and clear frames to complete it
+                // Set the process result to the error and clear frames to complete it — but only
+                // if the process is awaiting the failed one right now. A select that listed it
+                // and has since completed through another source (its timeout, say) leaves a
+                // stale registration behind; a later await of the failed process asks again and
+                // fails then.
                 if let Some(process) = self.executor.get_process_mut(awaiter) {
-                    process.result = Some(Err(error));
-                    process.frames.clear(); // Complete the process
+                    let awaiting_now = process.select_state.as_ref().is_some_and(|select| {
+                        select
+                            .sources
+                            .iter()
+                            .any(|source| matches!(source, Value::Process(id, _) if *id == awaited))
+                    });
+                    if awaiting_now {
+                        process.result = Some(Err(error));
+                        process.frames.clear(); // Complete the process
+                    }
                 }
             }
         }
